@@ -459,6 +459,7 @@ func trailString(tr []Decision) string {
 type scheduler interface {
 	push(prefix []Decision)
 	report(f Finding)
+	wantSample() bool
 }
 
 // PathResult is what a worker reports for one explored path.
